@@ -105,3 +105,387 @@ Example batching_example :
       (Z.to_nat (bp_take mbtiles_params)) (Z.to_nat (bp_drop mbtiles_params)) (flat_map (sel (bp_app mbtiles_params)) cs))
   = Some [999; 999; 102].
 Proof. vm_compute. reflexivity. Qed.
+
+(* ====================================================================== the bulk load equals the per-tile loads *)
+From MP Require Import CacheMap_proofs.
+
+Definition inb (part : list coord) (k : coord) : bool := existsb (Z3_eqb k) part.
+
+Lemma Z3_eqb_refl : forall k, Z3_eqb k k = true.
+Proof. intros. apply Z3_eqb_eq. reflexivity. Qed.
+
+Lemma inb_In : forall part k, inb part k = true <-> In k part.
+Proof.
+  intros. unfold inb. rewrite existsb_exists. split.
+  - intros [x [Hx E]]. apply Z3_eqb_eq in E. subst. exact Hx.
+  - intros H. exists k. split; [exact H | apply Z3_eqb_refl].
+Qed.
+
+Lemma inb_false : forall part k, ~ In k part -> inb part k = false.
+Proof. intros part k H. destruct (inb part k) eqn:E; [apply inb_In in E; contradiction | reflexivity]. Qed.
+
+Lemma zs_tri : forall a b, zs_eqb (tri a) (tri b) = Z3_eqb a b.
+Proof.
+  intros [[x y] l] [[x' y'] l']. unfold zs_eqb, tri, sel, Z3_eqb. cbn [map csel1 Z.eqb list_eqb].
+  rewrite andb_true_r, andb_assoc. reflexivity.
+Qed.
+
+Lemma existsb_tri : forall k part, existsb (zs_eqb (tri k)) (map tri part) = inb part k.
+Proof.
+  intros k part. unfold inb. induction part as [|c r IH]; [reflexivity|].
+  cbn [map existsb]. rewrite zs_tri, IH. reflexivity.
+Qed.
+
+(* ---- the first tile of every key *)
+Fixpoint dd (seen : list coord) (cs : list coord) : list coord :=
+  match cs with
+  | [] => []
+  | c :: r => if inb seen c then dd seen r else c :: dd (c :: seen) r
+  end.
+
+Lemma firsts_dd : forall p, bp_dkey p = [0; 1; 2]%Z -> forall cs seen, firsts p (map tri seen) cs = dd seen cs.
+Proof.
+  intros p E. induction cs as [|c r IH]; intros seen; [reflexivity|].
+  cbn [firsts dd]. rewrite E. fold (tri c). rewrite existsb_tri.
+  destruct (inb seen c); [apply IH|]. f_equal. apply (IH (c :: seen)).
+Qed.
+
+Lemma dd_In : forall cs seen c, In c (dd seen cs) <-> In c cs /\ ~ In c seen.
+Proof.
+  induction cs as [|x r IH]; intros seen c; cbn [dd In]; [tauto|].
+  destruct (inb seen x) eqn:E.
+  - apply inb_In in E. rewrite IH. split; [tauto|]. intros [[->|H] N]; [contradiction | tauto].
+  - assert (N : ~ In x seen) by (intros H; apply inb_In in H; rewrite H in E; discriminate).
+    cbn [In]. rewrite IH. cbn [In]. split.
+    + intros [->|[H1 H2]]; [tauto|]. split; [tauto|]. intros H3. apply H2. right. exact H3.
+    + intros [[->|H1] H2]; [tauto|]. destruct (Z3_eqb x c) eqn:Q.
+      * apply Z3_eqb_eq in Q. left. exact Q.
+      * right. split; [exact H1|]. intros [->|H3]; [rewrite Z3_eqb_refl in Q; discriminate | contradiction].
+Qed.
+
+Lemma dd_NoDup : forall cs seen, NoDup (dd seen cs).
+Proof.
+  induction cs as [|x r IH]; intros seen; cbn [dd]; [constructor|].
+  destruct (inb seen x); [apply IH|]. constructor; [|apply IH].
+  rewrite dd_In. intros [_ H]. apply H. left. reflexivity.
+Qed.
+
+(* ---- one SELECT *)
+Lemma chunks_flat_tri : forall fuel part, length part <= fuel -> chunks fuel 3 (flat_map tri part) = map tri part.
+Proof.
+  induction fuel as [|f IH]; intros part H.
+  - destruct part; [reflexivity | cbn in H; lia].
+  - destruct part as [|[[x y] l] r]; [reflexivity|]. cbn [flat_map chunks].
+    change (tri (x, y, l)) with [x; y; l]. cbn [app firstn skipn map]. f_equal. apply IH. cbn [length] in H. lia.
+Qed.
+
+Lemma flat_tri_length : forall part, length (flat_map tri part) = 3 * length part.
+Proof. induction part as [|c r IH]; [reflexivity|]. cbn [flat_map]. rewrite app_length, tri_length, IH. cbn [length]. lia. Qed.
+
+Lemma query_good : forall p d part, bp_group p = 3%Z ->
+  query p d (flat_map tri part) = Some (filter (fun row => inb part (fst row)) d).
+Proof.
+  intros p d part E. unfold query. rewrite E, flat_tri_length.
+  replace (Z.of_nat (3 * length part)) with (Z.of_nat (length part) * 3)%Z by lia.
+  rewrite Z.div_mul by lia.
+  replace (Z.of_nat (length part) * 3 =? 3 * Z.of_nat (length part))%Z with true by (symmetry; apply Z.eqb_eq; lia).
+  cbn [andb Z.ltb Z.compare]. rewrite chunks_flat_tri by lia. f_equal.
+  apply filter_ext. intros row. fold (tri (fst row)). apply existsb_tri.
+Qed.
+
+Lemma queries_good : forall p d ps, bp_group p = 3%Z ->
+  all_some_l (map (query p d) (map (flat_map tri) ps)) = Some (map (fun part => filter (fun row => inb part (fst row)) d) ps).
+Proof.
+  intros p d ps E. induction ps as [|part r IH]; [reflexivity|].
+  cbn [map all_some_l]. rewrite query_good by exact E. rewrite IH. reflexivity.
+Qed.
+
+(* ---- the rows of one key *)
+Definition keyis (k : coord) (row : coord * bytes) : bool := Z3_eqb (fst row) k.
+
+Lemma filter_key_filter : forall part k d,
+  filter (keyis k) (filter (fun row => inb part (fst row)) d) = if inb part k then filter (keyis k) d else [].
+Proof.
+  intros part k. induction d as [|row d IH]; cbn [filter]; [destruct (inb part k); reflexivity|].
+  destruct (keyis k row) eqn:K.
+  - unfold keyis in K. apply Z3_eqb_eq in K. rewrite K. destruct (inb part k) eqn:I.
+    + cbn [filter]. unfold keyis at 1. rewrite K, Z3_eqb_refl. rewrite IH. reflexivity.
+    + exact IH.
+  - destruct (inb part (fst row)); [cbn [filter]; rewrite K|]; exact IH.
+Qed.
+
+Definition db_wf (d : db) : Prop := NoDup (map fst d).
+
+Lemma filter_key_absent : forall k d, ~ In k (map fst d) -> filter (keyis k) d = [].
+Proof.
+  intros k. induction d as [|[k' v] d IH]; intros H; [reflexivity|]. cbn [filter map fst In] in *.
+  unfold keyis at 1. cbn [fst]. destruct (Z3_eqb k' k) eqn:E; [apply Z3_eqb_eq in E; tauto|]. apply IH. tauto.
+Qed.
+
+Lemma db_get_absent : forall k d, ~ In k (map fst d) -> db_get d k = None.
+Proof.
+  intros k. induction d as [|[k' v] d IH]; intros H; [reflexivity|]. cbn [map fst In] in H.
+  unfold db_get in *. cbn [kv_get]. destruct (Z3_eqb k' k) eqn:E; [apply Z3_eqb_eq in E; tauto|]. apply IH. tauto.
+Qed.
+
+Lemma filter_key_db : forall k d, db_wf d ->
+  filter (keyis k) d = match db_get d k with Some v => [(k, v)] | None => [] end.
+Proof.
+  intros k. induction d as [|[k' v] d IH]; intros H; [reflexivity|].
+  unfold db_wf in H. cbn [map fst] in H. inversion H as [|? ? Hn Hd]; subst.
+  cbn [filter]. unfold keyis at 1. unfold db_get. cbn [fst kv_get]. destruct (Z3_eqb k' k) eqn:E.
+  - apply Z3_eqb_eq in E. subst k'. rewrite filter_key_absent by exact Hn. reflexivity.
+  - apply IH. exact Hd.
+Qed.
+
+Lemma nodup_app_parts : forall {A} (a b : list A), NoDup (a ++ b) ->
+  NoDup a /\ NoDup b /\ (forall x, In x a -> ~ In x b).
+Proof.
+  induction a as [|x a IH]; intros b H; cbn [app] in *.
+  - split; [constructor | split; [exact H | intros x []]].
+  - inversion H as [|? ? Hx Hr]; subst. destruct (IH b Hr) as [Ha [Hb Hd]]. split; [|split].
+    + constructor; [|exact Ha]. intros Hin. apply Hx. apply in_or_app. left. exact Hin.
+    + exact Hb.
+    + intros y [->|Hy]; [intros Hin; apply Hx; apply in_or_app; right; exact Hin | apply Hd; exact Hy].
+Qed.
+
+Definition rows_of (d : db) (ps : list (list coord)) : list (coord * bytes) :=
+  List.concat (map (fun part => filter (fun row => inb part (fst row)) d) ps).
+
+Lemma inb_app : forall a b k, inb (a ++ b) k = inb a k || inb b k.
+Proof. intros. unfold inb. apply existsb_app. Qed.
+
+Lemma rows_key : forall d ps k, NoDup (List.concat ps) ->
+  filter (keyis k) (rows_of d ps) = if inb (List.concat ps) k then filter (keyis k) d else [].
+Proof.
+  intros d ps k. unfold rows_of. induction ps as [|part r IH]; intros H; [reflexivity|].
+  cbn [map List.concat] in *. rewrite filter_app, filter_key_filter, inb_app.
+  destruct (nodup_app_parts _ _ H) as [_ [Hr Hd]].
+  rewrite IH by exact Hr. destruct (inb part k) eqn:I; cbn [orb app].
+  - apply inb_In in I. rewrite inb_false; [apply app_nil_r | apply Hd; exact I].
+  - reflexivity.
+Qed.
+
+Lemma find_last_none : forall {A} (f : A -> bool) l, filter f l = [] -> find_last f l = None.
+Proof.
+  induction l as [|x l IH]; intros H; [reflexivity|]. cbn [filter find_last] in *.
+  destruct (f x); [discriminate|]. rewrite IH by exact H. reflexivity.
+Qed.
+
+Lemma find_last_single : forall {A} (f : A -> bool) l y, filter f l = [y] -> find_last f l = Some y.
+Proof.
+  induction l as [|x l IH]; intros y H; [discriminate|]. cbn [filter find_last] in *.
+  destruct (f x) eqn:F.
+  - injection H as -> H. rewrite find_last_none by exact H. reflexivity.
+  - rewrite (IH y H). reflexivity.
+Qed.
+
+Lemma find_last_ext : forall {A} (f g : A -> bool) l, (forall x, f x = g x) -> find_last f l = find_last g l.
+Proof. intros A f g l H. induction l as [|x l IH]; [reflexivity|]. cbn [find_last]. rewrite IH, H. reflexivity. Qed.
+
+(* the data a tile receives *)
+Lemma tile_result : forall d ps c, db_wf d -> NoDup (List.concat ps) -> In c (List.concat ps) ->
+  match find_last (keyis c) (rows_of d ps) with Some row => Some (snd row) | None => None end = db_get d c.
+Proof.
+  intros d ps c Hw Hn Hin.
+  pose proof (rows_key d ps c Hn) as R. rewrite (proj2 (inb_In _ _) Hin) in R. rewrite (filter_key_db c d Hw) in R.
+  destruct (db_get d c) as [v|].
+  - rewrite (find_last_single _ _ _ R). reflexivity.
+  - rewrite (find_last_none _ _ R). reflexivity.
+Qed.
+
+(* ---- the return value *)
+Definition has (d : db) (c : coord) : bool := is_some (db_get d c).
+
+Lemma filter_or_len : forall {A} (f g : A -> bool) l, (forall x, In x l -> f x = true -> g x = false) ->
+  length (filter (fun x => f x || g x) l) = length (filter f l) + length (filter g l).
+Proof.
+  induction l as [|x l IH]; intros H; [reflexivity|]. cbn [filter].
+  assert (IH' := IH (fun y Hy => H y (or_intror Hy))).
+  destruct (f x) eqn:F; cbn [orb].
+  - rewrite (H x (or_introl eq_refl) F). cbn [length]. rewrite IH'. lia.
+  - destruct (g x); cbn [length]; rewrite IH'; lia.
+Qed.
+
+Lemma part_rows_length : forall d part, db_wf d -> NoDup part ->
+  length (filter (fun row => inb part (fst row)) d) = length (filter (has d) part).
+Proof.
+  intros d part Hw. induction part as [|c r IH]; intros Hn.
+  - cbn [filter]. induction d as [|row d IHd]; [reflexivity|]. cbn [filter inb existsb]. apply IHd.
+    unfold db_wf in *. cbn [map] in Hw. inversion Hw; assumption.
+  - inversion Hn as [|? ? Hc Hr]; subst.
+    rewrite (filter_ext _ (fun row => keyis c row || inb r (fst row))) by (intros row; reflexivity).
+    rewrite filter_or_len.
+    + rewrite IH by exact Hr. rewrite filter_key_db by exact Hw. cbn [filter]. unfold has at 2.
+      destruct (db_get d c); reflexivity.
+    + intros row _ K. unfold keyis in K. apply Z3_eqb_eq in K. rewrite K. apply inb_false. exact Hc.
+Qed.
+
+Lemma rows_length : forall d ps, db_wf d -> NoDup (List.concat ps) ->
+  length (rows_of d ps) = length (filter (has d) (List.concat ps)).
+Proof.
+  intros d ps Hw. unfold rows_of. induction ps as [|part r IH]; intros Hn; [reflexivity|].
+  cbn [map List.concat] in *. rewrite app_length, filter_app, app_length.
+  destruct (nodup_app_parts _ _ Hn) as [Hp [Hr _]].
+  rewrite part_rows_length by assumption. rewrite IH by exact Hr. reflexivity.
+Qed.
+
+Lemma filter_len_le : forall {A} (f : A -> bool) l, length (filter f l) <= length l.
+Proof. induction l as [|x l IH]; [constructor|]. cbn [filter]. destruct (f x); cbn [length]; lia. Qed.
+
+Lemma filter_length_all : forall {A} (f : A -> bool) l, Nat.eqb (length (filter f l)) (length l) = forallb f l.
+Proof.
+  intros A f l. assert (B : length (filter f l) <= length l) by apply filter_len_le.
+  induction l as [|x l IH]; [reflexivity|]. cbn [filter forallb length] in *.
+  assert (B' : length (filter f l) <= length l) by apply filter_len_le.
+  destruct (f x); cbn [length andb].
+  - apply IH. exact B'.
+  - apply Nat.eqb_neq. lia.
+Qed.
+
+Lemma forallb_same_members : forall {A} (f : A -> bool) l1 l2, (forall x, In x l1 <-> In x l2) -> forallb f l1 = forallb f l2.
+Proof.
+  intros A f l1 l2 H. destruct (forallb f l1) eqn:E1, (forallb f l2) eqn:E2; try reflexivity.
+  - rewrite forallb_forall in E1. assert (forallb f l2 = true) by (apply forallb_forall; intros x Hx; apply E1, H, Hx). congruence.
+  - rewrite forallb_forall in E2. assert (forallb f l1 = true) by (apply forallb_forall; intros x Hx; apply E2, H, Hx). congruence.
+Qed.
+
+Lemma forallb_map' : forall {A B} (f : B -> bool) (g : A -> B) l, forallb f (map g l) = forallb (fun x => f (g x)) l.
+Proof. induction l as [|x l IH]; [reflexivity|]. cbn [map forallb]. rewrite IH. reflexivity. Qed.
+
+(* ---- the theorem *)
+Theorem bulk_load_correct : forall p d cs, good_params p -> db_wf d ->
+  bulk_load p d cs = Some (forallb is_some (map (db_get d) cs), map (db_get d) cs).
+Proof.
+  intros p d cs G Hw. destruct cs as [|c0 cs0]; [reflexivity|]. set (cs := c0 :: cs0).
+  assert (G' := G). destruct G' as [E1 [E2 [E3 [E4 [E5 E6]]]]].
+  unfold bulk_load. fold cs. change (match cs with [] => Some (true, []) | _ :: _ => ?X end) with X.
+  pose proof (firsts_dd p E5 cs []) as FD. cbn [map] in FD. rewrite FD. clear FD. set (ds := dd [] cs).
+  assert (Hds : NoDup ds) by apply dd_NoDup.
+  assert (Hmem : forall c, In c ds <-> In c cs) by (intros c; unfold ds; rewrite dd_In; cbn [In]; tauto).
+  destruct (batching_complete p ds G) as [ps [B [Hc [_ _]]]]. rewrite B.
+  change (sel [0%Z; 1%Z; 2%Z]) with tri. rewrite queries_good by exact E3. fold (rows_of d ps).
+  rewrite E5, E6. change (sel [0%Z; 1%Z; 2%Z]) with tri.
+  assert (Hn : NoDup (List.concat ps)) by (rewrite Hc; exact Hds).
+  (* no KeyError *)
+  assert (K : forallb (fun row => existsb (zs_eqb (tri (fst row))) (map tri cs)) (rows_of d ps) = true).
+  { apply forallb_forall. intros row Hr. rewrite existsb_tri. apply inb_In. apply Hmem. rewrite <- Hc.
+    unfold rows_of in Hr. apply in_concat in Hr. destruct Hr as [l [Hl Hr]].
+    apply in_map_iff in Hl. destruct Hl as [part [<- Hp]]. apply filter_In in Hr. destruct Hr as [_ Hr].
+    apply inb_In in Hr. apply in_concat. exists part. split; assumption. }
+  rewrite K. f_equal. f_equal.
+  - rewrite rows_length by assumption. rewrite Hc. rewrite filter_length_all.
+    rewrite (forallb_same_members (has d) ds cs Hmem). unfold has. rewrite forallb_map'. reflexivity.
+  - apply map_ext_in. intros c Hin.
+    rewrite (find_last_ext _ (keyis c)) by (intros row; apply zs_tri).
+    apply tile_result; try assumption. rewrite Hc. apply Hmem. exact Hin.
+Qed.
+
+(* ---- the unique index is an invariant of the row store *)
+Lemma del_keys : forall (s : db) k k', In k' (map fst (db_del s k)) -> In k' (map fst s) /\ Z3_eqb k' k = false.
+Proof.
+  induction s as [|[k0 v] s IH]; intros k k' H; [destruct H|]. unfold db_del in *. cbn [kv_del] in H.
+  destruct (Z3_eqb k0 k) eqn:E.
+  - destruct (IH k k' H) as [H1 H2]. split; [right; exact H1 | exact H2].
+  - cbn [map fst In] in H. destruct H as [<-|H]; [split; [left; reflexivity | exact E]|].
+    destruct (IH k k' H) as [H1 H2]. split; [right; exact H1 | exact H2].
+Qed.
+
+Lemma db_wf_del : forall d k, db_wf d -> db_wf (db_del d k).
+Proof.
+  unfold db_wf. induction d as [|[k0 v] d IH]; intros k H; [constructor|]. unfold db_del in *. cbn [kv_del].
+  cbn [map fst] in H. inversion H as [|? ? Hn Hd]; subst. destruct (Z3_eqb k0 k); [apply IH; exact Hd|].
+  cbn [map fst]. constructor; [|apply IH; exact Hd]. intros Hin. apply del_keys in Hin. tauto.
+Qed.
+
+Lemma db_wf_put : forall d k v, db_wf d -> db_wf (db_put d k v).
+Proof.
+  intros d k v H. unfold db_wf, db_put, kv_put. cbn [map fst]. constructor; [|apply db_wf_del; exact H].
+  intros Hin. apply del_keys in Hin. rewrite Z3_eqb_refl in Hin. destruct Hin. discriminate.
+Qed.
+
+Lemma db_wf_fold_put : forall (l : list (addr * bytes)) d, db_wf d ->
+  db_wf (fold_left (fun d ab => db_put d (coord_of (fst ab)) (snd ab)) l d).
+Proof. induction l as [|ab l IH]; intros d H; [exact H|]. cbn [fold_left]. apply IH. apply db_wf_put. exact H. Qed.
+
+(* ---- one database per level: the bulk load of a level cache equals the per-tile loads *)
+Section LevelBulk.
+  Variable p : bparams.
+  Hypothesis Gp : good_params p.
+  Variable s : ldb.
+  Hypothesis Hw : forall l, db_wf (ldb_get s l).
+  Variable cs : list coord.
+
+  Definition lg (c : coord) : option bytes := db_get (ldb_get s (snd c)) c.
+  Definition sub_in (l : Z) (x : list coord) : list coord := filter (fun c => Z.eqb (snd c) l) x.
+  Notation levels := (znodup (map (fun c : coord => snd c) cs)).
+
+  Lemma znodup_In : forall (l : list Z) x, In x (znodup l) <-> In x l.
+  Proof.
+    induction l as [|y l IH]; intros x; cbn [znodup In]; [tauto|]. rewrite filter_In, IH.
+    destruct (Z.eqb_spec x y); [subst; tauto|]. split; [tauto|]. intros [->|H]; [tauto|]. right. split; [exact H | reflexivity].
+  Qed.
+
+  Lemma level_results_eq : level_results p s cs =
+    map (fun l => (l, Some (forallb is_some (map lg (sub_in l cs)), map lg (sub_in l cs)))) levels.
+  Proof.
+    unfold level_results. apply map_ext. intros l. rewrite (bulk_load_correct p _ _ Gp (Hw l)).
+    fold (sub_in l cs).
+    assert (E : map (db_get (ldb_get s l)) (sub_in l cs) = map lg (sub_in l cs)).
+    { apply map_ext_in. intros c Hc. unfold sub_in in Hc. apply filter_In in Hc. destruct Hc as [_ Hc].
+      apply Z.eqb_eq in Hc. unfold lg. rewrite Hc. reflexivity. }
+    rewrite E. reflexivity.
+  Qed.
+
+  Notation rs := (map (fun l => (l, Some (forallb is_some (map lg (sub_in l cs)), map lg (sub_in l cs)))) levels).
+
+  Lemma lr_get_levels : forall (L : list Z) l, In l L ->
+    lr_get (map (fun l => (l, Some (forallb is_some (map lg (sub_in l cs)), map lg (sub_in l cs)))) L) l = map lg (sub_in l cs).
+  Proof.
+    induction L as [|x L IH]; intros l H; [destruct H|]. cbn [map lr_get].
+    destruct (Z.eqb_spec x l) as [->|N]; [reflexivity|]. apply IH. destruct H; [contradiction | assumption].
+  Qed.
+
+  Lemma nth_middle_map : forall (A B : list coord) c,
+    nth (length A) (map lg (A ++ c :: B)) None = lg c.
+  Proof. induction A as [|a A IH]; intros B c; [reflexivity|]. cbn [length app map nth]. apply IH. Qed.
+
+  Lemma scatter_ok : forall t pre seen, cs = pre ++ t ->
+    (forall l, length (filter (Z.eqb l) seen) = length (sub_in l pre)) ->
+    scatter rs seen t = map lg t.
+  Proof.
+    induction t as [|c t IH]; intros pre seen E Hcnt; [reflexivity|]. cbn [scatter map]. f_equal.
+    - rewrite lr_get_levels.
+      + rewrite Hcnt, E. unfold sub_in. rewrite filter_app. cbn [filter]. rewrite Z.eqb_refl. apply nth_middle_map.
+      + apply znodup_In. apply in_map_iff. exists c. split; [reflexivity|]. rewrite E. apply in_or_app. right. left. reflexivity.
+    - apply (IH (pre ++ [c])).
+      + rewrite <- app_assoc. exact E.
+      + intros l. specialize (Hcnt l). unfold sub_in in *. rewrite filter_app, app_length. cbn [filter].
+        rewrite (Z.eqb_sym l (snd c)). destruct (Z.eqb (snd c) l); simpl length; rewrite Hcnt; [rewrite Nat.add_1_r | rewrite Nat.add_0_r]; reflexivity.
+  Qed.
+
+  Lemma level_flags : forallb (fun r : Z * option (bool * list (option bytes)) =>
+                                 match snd r with Some (ok, _) => ok | None => false end) rs
+                      = forallb is_some (map lg cs).
+  Proof.
+    rewrite forallb_map'. cbn [snd].
+    destruct (forallb is_some (map lg cs)) eqn:R.
+    - apply forallb_forall. intros l _. rewrite forallb_map'. apply forallb_forall. intros c Hc.
+      rewrite forallb_map' in R. rewrite forallb_forall in R. apply R. unfold sub_in in Hc. apply filter_In in Hc. tauto.
+    - destruct (forallb (fun l => forallb is_some (map lg (sub_in l cs))) levels) eqn:L; [|reflexivity].
+      exfalso. rewrite forallb_forall in L.
+      assert (forallb is_some (map lg cs) = true); [|congruence].
+      rewrite forallb_map'. apply forallb_forall. intros c Hc.
+      assert (Hl : In (snd c) levels) by (apply znodup_In; apply in_map_iff; exists c; split; [reflexivity | exact Hc]).
+      specialize (L _ Hl). rewrite forallb_map' in L. rewrite forallb_forall in L. apply L.
+      unfold sub_in. apply filter_In. split; [exact Hc | apply Z.eqb_refl].
+  Qed.
+
+  Theorem level_bulk_load_correct : level_bulk_load p s cs = load_many_out (map lg cs).
+  Proof.
+    unfold level_bulk_load. rewrite level_results_eq.
+    assert (A : forallb (fun r : Z * option (bool * list (option bytes)) => is_some (snd r)) rs = true).
+    { apply forallb_forall. intros r Hr. apply in_map_iff in Hr. destruct Hr as [l [<- _]]. reflexivity. }
+    rewrite A. rewrite level_flags. rewrite (scatter_ok cs [] []); [reflexivity | reflexivity | intros l; reflexivity].
+  Qed.
+End LevelBulk.
